@@ -2,7 +2,8 @@
 From ChibiV Require Import Common.Words C01.Model C01.Proofs C01.TableProofs C01.Prims C01.PrimProofs
   C01.StackProofs C01.ConstProofs C01.Spec C01.SpecProofs Gen.C01_VmGuards Gen.C01_Stack Gen.C01_Consts
   C01.Recursion C01.RecursionProofs C01.RecursionGenProofs Gen.C01_Recursion
-  C01.Frame C01.FrameProofs C01.FrameOps C01.FrameGen.
+  C01.Frame C01.FrameProofs C01.FrameOps C01.FrameGen
+  C01.ReadBuf C01.ReadBufProofs C01.ReadBufGenProofs Gen.C01_ReadBuf.
 From Coq Require Import List ZArith.
 Local Open Scope Z_scope.
 
@@ -436,3 +437,55 @@ Theorem eval_op_restores_context : forall ctx2 run c,
   snd (eval_op ctx2 run c) = snd (run (mkctx (c_top c) CNull ctx2)).
 Proof. exact C01.FrameProofs.eval_op_restores_context. Qed.
 Print Assumptions eval_op_restores_context.
+
+(** ** round 4: the buffer discipline of the reader's token collectors (model C01/ReadBuf.v, constants regenerated from sexp.c) *)
+
+(** for constants with (largest write of one iteration) <= H + 1, where the code tests [i + H >= size] AFTER writing: every
+    write, both sides of every memcpy of an expansion and the terminating NUL lie inside the buffer they go to, for ALL
+    sequences of per-iteration write sizes, i.e. all tokens of all lengths *)
+Theorem readbuf_discipline_in_bounds : forall p, rb_params_ok p = true ->
+  forall ws, Forall (fun w => 0 <= w <= rb_maxw p) ws -> Forall region_ok (rb_collect p ws).
+Proof. exact C01.ReadBufProofs.rb_collect_in_bounds. Qed.
+Print Assumptions readbuf_discipline_in_bounds.
+
+(** generated obligation: the constants of THIS sexp.c (initial size, the H of each expansion test, the most bytes
+    sexp_utf8_char_byte_count can announce; the digit buffer's length, slack and snprintf bound) satisfy the condition *)
+Theorem reader_buffers_have_headroom :
+  rb_params_ok read_string_params = true /\ rb_params_ok read_symbol_params = true /\ fb_params_ok float_digits_params = true.
+Proof. exact reader_buffers_have_headroom_proof. Qed.
+Print Assumptions reader_buffers_have_headroom.
+
+(** hence, for sexp_read_string as it is in this tree (string literals and |symbols|) ... *)
+Theorem read_string_buffer_in_bounds : forall ws, Forall (fun w => 0 <= w <= rb_maxw read_string_params) ws ->
+  Forall region_ok (rb_collect read_string_params ws).
+Proof. exact read_string_in_bounds_proof. Qed.
+Print Assumptions read_string_buffer_in_bounds.
+
+(** ... for sexp_read_symbol (symbols, character names, #! names) ... *)
+Theorem read_symbol_buffer_in_bounds : forall ws, Forall (fun w => 0 <= w <= rb_maxw read_symbol_params) ws ->
+  Forall region_ok (rb_collect read_symbol_params ws).
+Proof. exact read_symbol_in_bounds_proof. Qed.
+Print Assumptions read_symbol_buffer_in_bounds.
+
+(** ... and for the fixed digit buffer of sexp_read_float_tail, for any number of fraction digits *)
+Theorem float_digit_buffer_in_bounds : forall w0 k, 1 <= w0 <= fb_whole float_digits_params -> 0 <= k ->
+  Forall region_ok (fb_collect float_digits_params w0 k).
+Proof. exact float_digits_in_bounds_proof. Qed.
+Print Assumptions float_digit_buffer_in_bounds.
+
+(** the condition is not slack: head-room 1 with the 4-byte escape (seeded change C01-c3) overruns on a 126-byte prefix *)
+Theorem readbuf_headroom_one_refuted :
+  ~ (forall ws, Forall (fun w => 0 <= w <= 4) ws -> Forall region_ok (rb_collect (mkrb 128 1 4) ws)).
+Proof. exact C01.ReadBufProofs.rb_headroom_one_refuted. Qed.
+Print Assumptions readbuf_headroom_one_refuted.
+
+(** ** round 4: sexp_restore_stack (regenerated): the stack a continuation is restored onto — possibly the fresh, short stack of
+    a later sexp_eval_string call — has room for the saved words plus the 64-word margin, or out-of-stack is reported *)
+Theorem restore_policy : forall MAX slen n,
+  0 <= n -> 0 < slen -> slen <= MAX ->
+  match gen_restore_stack MAX slen n with
+  | Some l => gen_restore_copy n + 64 <= l /\ l <= MAX /\ slen <= l
+  | None => MAX <= n + 64
+  end.
+Proof. exact restore_policy_proof. Qed.
+Print Assumptions restore_policy.
